@@ -191,6 +191,7 @@ func TestVerifTrace(t *testing.T) {
 		zzverif.LoadReplayFile(parts[1])
 		outcome := zzRunTraced(parts[0])
 		fmt.Printf("VERIF-TRACE %%d outcome=%%s reached=%%s failed=%%s\n", i, outcome, strings.Join(zzverif.ReachedL, ","), strings.Join(zzverif.Failed, ","))
+		fmt.Printf("VERIF-OBSERVED %%d %%s\n", i, strings.Join(zzverif.ObservedL, " | "))
 	}
 	fmt.Println("VERIF-TRACE-DONE")
 }
@@ -246,7 +247,13 @@ func TestVerifTrace(t *testing.T) {
 		if got[i] == want {
 			agree++
 		} else {
-			diffs = append(diffs, fmt.Sprintf("%s model=%v: symbolic {%s} native {%s}", s.Entry, s.Model, want, got[i]))
+			obs := ""
+			for _, line := range strings.Split(so, "\n") {
+				if strings.HasPrefix(line, fmt.Sprintf("VERIF-OBSERVED %d ", i)) {
+					obs = line
+				}
+			}
+			diffs = append(diffs, fmt.Sprintf("%s model=%v: symbolic {%s} native {%s} %s", s.Entry, s.Model, want, got[i], obs))
 		}
 	}
 	return agree, diffs, nil
